@@ -206,6 +206,11 @@ func runUnit(res *common.Result) {
 	case "cancel-nested-b2":
 		res.Bound = 2
 		cancelNested(func(c Cfg) bool { return each(c, 2, false, *pruneFlag) })
+	case "nested2-orders": // pipelines nested two levels deep, every completion order
+		nested2(func(c Cfg) bool { return each(c, 0, true, *pruneFlag) })
+	case "nested2-b1":
+		res.Bound = 1
+		nested2(func(c Cfg) bool { return each(c, 1, false, *pruneFlag) })
 	case "skeleton5-orders":
 		skeletons(func(c Cfg) bool { return each(c, 0, true, *pruneFlag) }, sigma)
 	case "skeleton5-b0":
@@ -270,6 +275,51 @@ func nested(f func(Cfg) bool) {
 						})
 						if stop {
 							return
+						}
+					}
+				}
+			}
+		}
+	}
+}
+
+// nested2: outer DAG on <=2 stages, one of them an inner pipeline of <=2 stages, one of which is an
+// innermost pipeline of <=2 stages (outcomes from Sigma at the innermost level, ok elsewhere, the two
+// enclosing pipeline stages with and without allow_failure).
+func nested2(f func(Cfg) bool) {
+	inner, innermost := []string{"x", "y"}, []string{"u", "v"}
+	for n := 1; n <= 2; n++ {
+		for _, deps := range allDAGs(n) {
+			for pos := 0; pos < n; pos++ {
+				for in := 1; in <= 2; in++ {
+					for _, ideps := range allDAGs(in) {
+						for ipos := 0; ipos < in; ipos++ {
+							for im := 1; im <= 2; im++ {
+								for _, mdeps := range allDAGs(im) {
+									stop := false
+									forEachOutcome(im, []int{0, 1, 2, 3}, func(mouts []int) {
+										if stop {
+											return
+										}
+										for _, allow := range []int{0, 1, 2} {
+											g := mkGraph(deps, make([]int, n), names)
+											ig := mkGraph(ideps, make([]int, in), inner)
+											mg := mkGraph(mdeps, mouts, innermost)
+											ig.Stages[ipos].Inner = &mg
+											ig.Stages[ipos].Allow = allow == 1
+											g.Stages[pos].Inner = &ig
+											g.Stages[pos].Allow = allow == 2
+											if f(Cfg{G: g}) {
+												stop = true
+												return
+											}
+										}
+									})
+									if stop {
+										return
+									}
+								}
+							}
 						}
 					}
 				}
